@@ -476,6 +476,9 @@ func parseModItems(s string, loop int) []*ModItem {
 		} else if strings.HasPrefix(it, "allmaps(") {
 			m.All, m.AllKind = true, true
 			m.Expr = strings.TrimSuffix(strings.TrimPrefix(it, "allmaps("), ")")
+		} else if strings.HasPrefix(it, "gcCallbacks(") {
+			m.All = true
+			m.Expr = it
 		} else if strings.HasPrefix(it, "gcChan(") {
 			m.All = true
 			m.Expr = strings.TrimSuffix(strings.TrimPrefix(it, "gcChan("), ")")
@@ -747,6 +750,10 @@ func gcClosed[T any](ch chan T) bool { return false }
 func gcAwaited[T any](ch chan T) bool { return false }
 func gcCap[T any](ch chan T) int { return cap(ch) }
 func gcChan[T any](ch chan T) any { return ch }
+// callbacks: how often a function value has been called (in total / with a first argument)
+func gcCalls[F any](f F) int { return 0 }
+func gcCalledWith[F any, A any](f F, a A) int { return 0 }
+func gcCallbacks(f any) any { return f }
 func gcFst[A, B any](a A, b B) A { return a }
 func gcSnd[A, B any](a A, b B) B { return b }
 func gcSum[K comparable](m map[K]int64) int64 { var s int64; for _, v := range m { s += v }; return s }
